@@ -807,7 +807,7 @@ func run(c *core.Ctx) {
 		maxLen = 4
 	}
 	inputs := allInputs(maxLen)
-	soft := 70 * time.Second // own soft deadline (never an oracle): later shards are skipped and reported as capped
+	soft := 60 * time.Second // own soft deadline (never an oracle): later shards are skipped and reported as capped
 	if !c.Quick() {
 		soft = 15 * time.Minute
 	}
